@@ -13,7 +13,7 @@ pub trait Socks5Message: Send + Sync {
 }
 
 pub struct Socks5InitialRequest {
-    auth_methods: Vec<Socks5AuthMethod>,
+    pub auth_methods: Vec<Socks5AuthMethod>,
 }
 
 impl Socks5InitialRequest {
